@@ -174,6 +174,7 @@ func shrinkInput(in *Input, fails func(*Input) bool, budget time.Duration) (*Inp
 		for _, f := range []func(c *Input) bool{
 			func(c *Input) bool { ch := len(c.Cfg.SitesOff) > 0; c.Cfg.SitesOff = nil; return ch },
 			func(c *Input) bool { ch := c.TailPct != 0; c.TailSeed, c.TailPct = 0, 0; return ch },
+			func(c *Input) bool { ch := len(c.Cfg.FineSites) > 0; c.Cfg.FineSites = nil; return ch },
 			func(c *Input) bool {
 				if len(c.Cfg.FineSites) < 2 {
 					return false
@@ -216,6 +217,7 @@ func shrinkInput(in *Input, fails func(*Input) bool, budget time.Duration) (*Inp
 					for _, f := range []func(o *Op) bool{
 						func(o *Op) bool { ch := o.IK != ""; o.IK = ""; return ch },
 						func(o *Op) bool { ch := o.Ref != ""; o.Ref = ""; return ch },
+						func(o *Op) bool { ch := o.MetaKey != ""; o.MetaKey = ""; return ch },
 						func(o *Op) bool { ch := o.TS != "" && o.Tag == ""; o.TS = ""; return ch },
 						func(o *Op) bool { ch := o.CancelAtYield != 0; o.CancelAtYield = 0; return ch },
 						func(o *Op) bool { ch := o.DryRun && !o.Preview; o.DryRun = false; return ch },
